@@ -80,6 +80,8 @@ class RF24:
     def close_rx_pipe(self, pipe_num):
         if pipe_num < 0 or pipe_num > 5:
             raise ValueError("pipe_number must be in range [0, 5]")
+        if not pipe_num:
+            self._pipe0_read_addr = None  # a closed pipe 0 is not re-opened by `listen`
         open_pipes = self._reg_read(2)
         if open_pipes & (1 << pipe_num):
             self._reg_write(2, open_pipes & ~(1 << pipe_num))
